@@ -45,6 +45,7 @@ type Cfg struct {
 	SetCap      bool
 	FilterSec   bool
 	Macros      bool // _self macros in the same template
+	NestInterp  bool // interpolated strings inside interpolations
 	RecMacro    bool // a macro that loops and calls itself from the loop body (bounded depth)
 	Blocks      bool // standalone blocks with block()
 	Do          bool
@@ -344,7 +345,8 @@ func (g *G) strExpr(d int) *m.E {
 	case 3:
 		// interpolation: literal parts without quotes, '#{' or backslashes;
 		// no double-quoted string inside an interpolation (region, see DESIGN.md)
-		if g.inInterp > 0 || g.C.NoInterp {
+		// (an interpolated string may stand inside an interpolation, once)
+		if g.inInterp > 1 || (g.inInterp > 0 && !g.C.NestInterp) || g.C.NoInterp {
 			return g.leaf(TStr)
 		}
 		g.inInterp++
